@@ -127,20 +127,40 @@ def furthest_rule(ctx, p, K):
     kg = {k: norm_text(wire.strip_np_array(v)) for k, v in wire.kw(cg).items()}
     ctx.ob(rule, h.key + ":pixel-units", kg == {"mask_2d": "mask_2d", "pixel_scales": "(1.0, 1.0)", "sub_size": "sub_size", "origin": "(0.0, 0.0)"}, where=h, node=cg, construct=str(kg),
            message="distances must be measured in pixel units: the over-sampled grid of the same mask and sub-size map with pixel_scales=(1.0, 1.0) and origin=(0.0, 0.0)")
-    gl, cl, bl, sl = local(cg), local(cc), local(cb), local(cs_)
-    ctx.ob(rule, h.key + ":centre", {k: norm_text(v) for k, v in wire.kw(cc).items()} == {"grid_2d_slim": gl}, where=h, node=cc, construct=norm_text(cc), message="the reference centre must be the bounding-box centre of that pixel-unit grid")
-    kf = {k: norm_text(v) for k, v in wire.kw(cf).items()}
-    # candidates: the sub-pixels of this border pixel (directly, or through a local bound once)
-    cand = wire.resolve_local(h, wire.kw(cf).get("slim_indexes")) if wire.kw(cf).get("slim_indexes") is not None else None
-    cand_src = norm_text(cand) if cand is not None else None
-    loop = [n for n in h.node.body if isinstance(n, ast.For)]
-    okl = len(loop) == 1 and norm_text(loop[0].iter) == f"enumerate({bl})" and isinstance(loop[0].target, ast.Tuple)
-    bi, bp = (norm_text(loop[0].target.elts[0]), norm_text(loop[0].target.elts[1])) if okl else (None, None)
-    okf = kf.get("grid_2d_slim") == gl and kf.get("coordinate") == cl and cand_src in (f"{sl}[int({bp})]", f"{sl}[{bp}]")
-    ctx.ob(rule, h.key + ":farthest", okl and okf, where=h, node=cf, construct=f"{kf}; candidates = {cand_src}", message="for each border pixel the farthest point must be searched among that pixel's OWN sub-pixels, on the pixel-unit grid, from the bounding-box centre")
+    # name-free, from the abstract evaluation of the function (KEval): the arguments each routine actually receives, as canonical forms of what they were computed from
+    H = K.summarize(h)
+    rec = {}
+    for ck, ca, cgd, cn in H.calls:
+        rec.setdefault(ck.split(":")[-1], []).append(ca)
+
+    def one_rec(nm):
+        return rec[nm][0] if len(rec.get(nm, [])) == 1 else {}
+    rc, rf = one_rec("grid_2d_centre_from"), one_rec("furthest_grid_2d_slim_index_from")
+    grid_ref = rc.get("grid_2d_slim")
+    okc = isinstance(grid_ref, Ref) and grid_ref.name.startswith("grid_2d_slim_over_sampled_via_mask_from#")
+    ctx.ob(rule, h.key + ":centre", okc, where=h, node=cc, construct=repr(grid_ref)[:120], message="the reference centre must be the bounding-box centre of that pixel-unit grid")
+    sts = H.stores_to("sub_border_pixels")
+    okl = len(sts) == 1 and len(sts[0].loops) == 1 and sts[0].loops[0].lo == ZERO and sts[0].loops[0].step == ONE
+    okf = False
+    det = ""
+    if okl and okc:
+        i = S_(sts[0].loops[0].var)
+        A0 = lambda c: Poly.elem(grid_ref.name, S_(":"), c)
+        centre = ((Poly.fn("max", A0(ZERO)) + Poly.fn("min", A0(ZERO))) * HALF, (Poly.fn("max", A0(ONE)) + Poly.fn("min", A0(ONE))) * HALF)
+        cands = rf.get("slim_indexes")
+        det = f"grid {rf.get('grid_2d_slim')!r}; candidates {cands!r}"[:300]
+        border_i = None
+        if isinstance(cands, Ref) and cands.name.startswith("sub_slim_indexes_for_slim_index_via_mask_2d_from(") and len(cands.idx) == 1:
+            border_i = cands.idx[0]
+        okf = isinstance(rf.get("grid_2d_slim"), Ref) and rf["grid_2d_slim"].name == grid_ref.name and rf.get("coordinate") == centre and border_i is not None \
+            and any(repr(border_i) == f"{w_}border_slim_indexes_from#{k_}.border_pixels[{sts[0].loops[0].var}]{e_}" for k_ in range(1, 40) for w_, e_ in (("int(", ")"), ("", "")))
+        # one entry per border pixel: the loop runs over the whole border list
+        hi = sts[0].loops[0].hi
+        okl = okl and ("total_border_pixels_from(" in repr(hi) or "border_pixels.shape[0]" in repr(hi))
+    ctx.ob(rule, h.key + ":farthest", okl and okf, where=h, node=cf, construct=det, message="for each border pixel the farthest point must be searched among that pixel's OWN sub-pixels, on the pixel-unit grid, from the bounding-box centre")
     # stored at the border pixel's position in the output, one per border pixel
-    st = [n for n in ast.walk(loop[0]) if isinstance(n, ast.Assign) and isinstance(n.targets[0], ast.Subscript) and n.value is cf] if okl else []
-    ctx.ob(rule, h.key + ":store", len(st) == 1 and norm_text(st[0].targets[0].slice) == bi, where=h, node=st[0] if st else h.node, construct=norm_text(st[0].targets[0]) if st else "", message="entry i of the result must belong to border pixel i (order of the border list preserved)")
+    oks = okl and sts[0].idx == (S_(sts[0].loops[0].var),) and not real_guards(sts[0].guards) and sts[0].op == "="
+    ctx.ob(rule, h.key + ":store", oks, where=h, node=sts[0].node if sts else h.node, construct=repr(sts[0])[:160] if sts else "", message="entry i of the result must belong to border pixel i (order of the border list preserved)")
     kb = {k: norm_text(wire.strip_np_array(v)) for k, v in wire.kw(cb).items()}
     ks = {k: norm_text(wire.strip_np_array(v)) for k, v in wire.kw(cs_).items()}
     ctx.ob(rule, h.key + ":same-mask", kb == {"mask_2d": "mask_2d"} and ks == {"mask_2d": "mask_2d", "sub_size": "sub_size"}, where=h, node=cb, construct=f"{kb}; {ks}", message="border list and sub-index table must come from the same mask and sub-size map")
